@@ -97,13 +97,93 @@ def floatenum_value_derived_from_index():
     return 'bool', 'true'
 
 
+def _fe_wfunc():
+    """the generated write_<float> (inner function wfunc of FloatEnumParam.__set_name__), its default arguments as
+    {name: normalised source}, and the one call of write_<idx> inside it: (function, defaults, call node, statement index)"""
+    sn = find_func(_fe(), '__set_name__')
+    w = _inner_func(sn, 'wfunc')
+    args = w.args
+    if args.vararg or args.kwarg or args.kwonlyargs or args.posonlyargs:
+        raise Shape('FloatEnumParam wfunc: unexpected signature')
+    names = [a.arg for a in args.args]
+    if names[:2] != ['mobj', 'value']:
+        raise Shape('FloatEnumParam wfunc: expected (mobj, value, ...)')
+    defaults = dict(zip(names[len(names) - len(args.defaults):], (_norm(d) for d in args.defaults)))
+    # installed as write_<name> unless the programmer wrote one
+    guard = [n for n in walk_type(sn, ast.If) if _norm(n.test) == "nothasattr(owner,f'write_{name}')"]
+    if len(guard) != 1 or w not in guard[0].body or "setattr(owner,f'write_{name}',wfunc)" not in _norm(guard[0]):
+        raise Shape('FloatEnumParam.__set_name__: wfunc is not installed as write_<name> in the modelled way')
+    if "iname=self.idx_name" not in _norm(sn):
+        raise Shape('FloatEnumParam.__set_name__: iname is not the index parameter name')
+    # write_<idx>: getattr(mobj, <name of write_<idx>>)(...) - exactly one call, a statement of its own at the top level
+    calls = []
+    for k, st in enumerate(w.body):
+        for c in walk_type(st, ast.Call):
+            f = c.func
+            if (isinstance(f, ast.Call) and _norm(f.func) == 'getattr' and len(f.args) == 2 and not f.keywords
+                    and _norm(f.args[0]) == 'mobj'):
+                target = _norm(f.args[1])
+                target = defaults.get(target, target)
+                if target == "f'write_{iname}'":
+                    calls.append((c, k, st))
+    if len(calls) != 1:
+        raise Shape('FloatEnumParam wfunc: expected exactly one call of write_<idx>')
+    return w, defaults, calls[0]
+
+
+def _single_assignment(func, name, before):
+    """the value of the ONE assignment `name = <expr>` in func; it must be a top level statement before statement #before"""
+    found = [(k, st) for k, st in enumerate(func.body)
+             if isinstance(st, ast.Assign) and any(isinstance(t, ast.Name) and t.id == name for t in st.targets)]
+    stores = [n for n in ast.walk(func) if isinstance(n, ast.Name) and n.id == name and not isinstance(n.ctx, ast.Load)]
+    if len(found) != 1 or len(stores) != 1 or len(found[0][1].targets) != 1 or found[0][0] >= before:
+        raise Shape(f'FloatEnumParam wfunc: {name} is not assigned exactly once before its use')
+    return found[0][1].value
+
+
 def floatenum_write_selects_closest():
-    """generated write: write_<idx>(min(vdict, key=lambda i: abs(vdict[i] - value))); returns getattr(mobj, fname)"""
-    w = _norm(_inner_func(find_func(_fe(), '__set_name__'), 'wfunc'))
-    ok = ('getattr(mobj,wfunc_iname)(min(vdict,key=lambdai:abs(vdict[i]-value)))' in w
-          and 'returngetattr(mobj,fname)' in w)
+    """generated write_<float>: the index handed to write_<idx> is min(vdict, key=lambda i: abs(vdict[i] - value)) with
+    vdict = self.valuedict and value = the second argument (written inline or through one local variable)"""
+    w, defaults, (call, k, _) = _fe_wfunc()
+    if len(call.args) != 1 or call.keywords:
+        raise Shape('FloatEnumParam wfunc: write_<idx> is not called with one argument')
+    arg = call.args[0]
+    if isinstance(arg, ast.Name):
+        arg = _single_assignment(w, arg.id, k)
+    stores = [n.id for n in ast.walk(w) if isinstance(n, ast.Name) and not isinstance(n.ctx, ast.Load)]
+    ok = (_norm(arg) == 'min(vdict,key=lambdai:abs(vdict[i]-value))'
+          and defaults.get('vdict') == 'self.valuedict'
+          and 'vdict' not in stores and 'value' not in stores)
     if not ok:
         raise Shape('FloatEnumParam write function does not select min |vdict[i] - value|')
+    return 'bool', 'true'
+
+
+def floatenum_write_returns_current_value():
+    """generated write_<float>: write_<idx>(...) is a statement of its own (its result is not used), and the ONLY return
+    is the last statement, `return getattr(mobj, <float name>)` - the value looked up from the index that is current AFTER
+    write_<idx> (FloatEnumParam.__get__), not the value of the index that was requested"""
+    w, defaults, (call, k, st) = _fe_wfunc()
+    returns = walk_type(w, ast.Return)
+    last = w.body[-1]
+    ok = (isinstance(st, ast.Expr) and st.value is call           # result of write_<idx> discarded
+          and len(returns) == 1 and returns[0] is last and k < len(w.body) - 1
+          and not walk_type(w, (ast.Yield, ast.YieldFrom, ast.Try, ast.While, ast.For)))
+    if ok:
+        v = last.value
+        ok = (isinstance(v, ast.Call) and _norm(v.func) == 'getattr' and len(v.args) == 2 and not v.keywords
+              and _norm(v.args[0]) == 'mobj')
+        if ok:
+            target = _norm(v.args[1])
+            ok = defaults.get(target, target) == 'name'      # fname=name default argument, or the closure variable
+    stores = [n.id for n in ast.walk(w) if isinstance(n, ast.Name) and not isinstance(n.ctx, ast.Load)]
+    ok = ok and 'mobj' not in stores and 'name' not in stores and 'fname' not in stores
+    # name must be the parameter's own name (argument of __set_name__), never reassigned there
+    sn = find_func(_fe(), '__set_name__')
+    ok = ok and [a.arg for a in sn.args.args][:3] == ['self', 'owner', 'name'] \
+        and not [n for n in ast.walk(sn) if isinstance(n, ast.Name) and n.id == 'name' and not isinstance(n.ctx, ast.Load)]
+    if not ok:
+        raise Shape('FloatEnumParam write function does not return getattr(mobj, <name>) looked up after write_<idx>')
     return 'bool', 'true'
 
 
@@ -257,7 +337,8 @@ def callbacks_before_update_sent():
 
 
 FACTS = [struct_callbacks_shape, struct_generated_methods_shape,
-         floatenum_value_derived_from_index, floatenum_write_selects_closest, floatenum_init_shape,
+         floatenum_value_derived_from_index, floatenum_write_selects_closest, floatenum_write_returns_current_value,
+         floatenum_init_shape,
          check_limits_shape, check_function_installed_for_limits, limit_postfixes, limit_datatype_from_base,
          limitstype_refuses_inverted,
          activate_control_shape, self_controlled_shape, update_target_lookup_by_member,
